@@ -241,9 +241,25 @@ def _regex_stmt(c, p):
     return ("", "%swhile(%s){ %s; }" % (pre, _c(c), call))
 
 
+KEPT_SETUP = ("var arr9=[3,1,2], each9=arr9.forEach, map9=arr9.map, sort9=arr9.sort, red9=arr9.reduce, fil9=arr9.filter, some9=arr9.some; "
+              "function kf9(x){ for (var i9=0;i9<300;i9++){} return x; } var call9=kf9.call, apply9=kf9.apply; "
+              "var rx9=/(a+)+b/, tst9=rx9.test, ex9=rx9.exec; var S9='aaaaaaaaaaaaaaaaaaaaaaaaaa'; "
+              "var mt9=S9.match, sr9=S9.search, rp9=S9.replace, sp9=S9.split; 'setup';")
+KEPT_USES = {
+    "each": "each9(kf9);", "map": "map9(kf9);", "filter": "fil9(kf9);", "some": "some9(function(x){ kf9(x); return false; });",
+    "sort": "sort9(function(a,b){ kf9(a); return a-b; });", "reduce": "red9(function(a,x){ return kf9(a+x); }, 0);",
+    "call": "call9(null, 1);", "apply": "apply9(null, [1]);",
+    "rx_test": "tst9(S9);", "rx_exec": "ex9(S9);", "str_match": "mt9(rx9);", "str_match_str": "mt9('(a+)+b');",
+    "str_search": "sr9(rx9);", "str_replace": "rp9(rx9, 'x');", "str_split": "sp9(rx9);",
+    "str_replace_fn": "rp9(/a/g, function(m){ kf9(1); return m; });",
+}
+
+
 def setup_src(cell):
     """Source of an eval that runs on the same context before the measured one (or None)."""
     p = cell.get("params", {})
+    if cell["keepalive"] == "kept_method":
+        return KEPT_SETUP
     if cell["keepalive"] != "regex" or not p.get("rx_build", "").startswith("setup_"):
         return None
     pat = RX_FAMILIES[p["rx_family"]][0]
@@ -281,7 +297,12 @@ def _phases():
         vals = p.get("be_vals", list(EDGE_VALUES))
         return ("", "var f9 = %s; var v9 = [%s]; var i9 = 0; while(%s){ f9(v9[i9 %% v9.length], v9[(i9 >> 4) %% v9.length]); i9++; }"
                     % (EDGE_FNS[p.get("be_fn", "Math.clz32")], ", ".join(vals), _c(c)))
-    return {"phase_change": phase_change, "native_cb_grow": native_cb_grow, "pow_tower": pow_tower, "builtin_edge": builtin_edge}
+    def kept_method(c, p):
+        # built-in methods taken off their objects by an EARLIER evaluation (see setup_src) and called
+        # now: what they run is bounded by this evaluation's limit, and only by it
+        return ("", "while(%s){ %s }" % (_c(c), KEPT_USES[p.get("km_use", "each")]))
+    return {"phase_change": phase_change, "native_cb_grow": native_cb_grow, "pow_tower": pow_tower, "builtin_edge": builtin_edge,
+            "kept_method": kept_method}
 
 
 EDGE_VALUES = ("0", "-0", "1", "-1", "0.5", "-1.5", "NaN", "Infinity", "-Infinity", "2147483647", "2147483648", "-2147483648",
@@ -522,6 +543,10 @@ def gen_case(seed, i, tier="quick"):
         params["pt_op"] = rng.choice(("** 3", "** 2", "** x9", "* x9", "** 40000000"))
     if ka not in ("regex", "loop_native_big", "eval_chain_busy") and rng.random() < 0.04:
         ka = "builtin_edge"
+    if ka not in ("regex", "loop_native_big", "eval_chain_busy", "builtin_edge") and rng.random() < 0.02:
+        ka = "kept_method"
+    if ka == "kept_method":
+        params["km_use"] = rng.choice(sorted(KEPT_USES))
     if ka == "builtin_edge":
         params["be_fn"] = rng.choice(EDGE_FN_NAMES)
         vals = list(EDGE_VALUES)
@@ -694,8 +719,9 @@ def judge(case, r):
         v.append({"clause": "precondition", "detail": "MemoryLimitError in a C01 cell"})
     elif r["outcome"] == "value" and case["cell"].get("params", {}).get("bounded"):
         pass  # a bounded long-running script may finish; the overrun clause below still applies
-    elif r["outcome"] in ("js_error", "host_exc") and case["cell"].get("params", {}).get("may_fail"):
-        pass  # a built-in refused an edge value: the evaluation ended, which is all this property asks
+    elif r["outcome"] in ("js_error", "host_exc", "value") and case["cell"].get("params", {}).get("may_fail"):
+        pass  # a built-in refused an edge value (the script may have caught that and finished): the
+        # evaluation ended, which is all this property asks
     else:
         v.append({"clause": "C01.class", "detail": "non-terminating script ended in %s %s: %s" % (
             r["outcome"], r["cls"], (r["msg"] if r["outcome"] != "value" else json.dumps(r["value"])))})
